@@ -382,6 +382,10 @@ func sacramento(rainfall, pet data.ND1Float64,
 					}
 				}
 				additionalImperviousStore = additionalImperviousStore + pinc - addro
+				if additionalImperviousStore > uztwm+lztwm {
+					addro = addro + additionalImperviousStore - (uztwm + lztwm)
+					additionalImperviousStore = uztwm + lztwm
+				}
 				roimp = roimp + addro*adimp
 			}
 			adj = 1. - adj
